@@ -37,8 +37,9 @@ def check_section(ctx: Ctx, case) -> None:
     items = case["items"]
     res = case.get("res", 192)
     exp = expected_notes(res, items)
-    rc = {"res": res, "lines": _lines(items)}
-    chart, tr = T.parse_track(ctx, res, TEMPO, _lines(items), case.get("header", HEADER), rc)
+    rc = {"res": res, "lines": _lines(items), "fmt": case.get("fmt", 0)}
+    chart, tr = T.parse_track(ctx, res, TEMPO, _lines(items), case.get("header", HEADER), rc,
+                              fmt=case.get("fmt", 0))
     if tr is None:
         return
     T.compare_notes(ctx, tr, exp, rc, {"ticks", "lanes"})
@@ -61,7 +62,7 @@ def check_section(ctx: Ctx, case) -> None:
     for x in exp:
         ctx.classes["mask_%d" % sum(b << i for i, b in enumerate(x["value"]))
                     if not x["open"] else "mask_open"] += 1
-    ctx.note(rc["lines"], nontrivial=len(exp) >= 3 and (chord3 or gap1 or chord_last or inside),
+    ctx.note([rc["lines"], rc["fmt"]], nontrivial=len(exp) >= 3 and (chord3 or gap1 or chord_last or inside),
              classes=[c for c, f in (("chord3", chord3), ("gap1", gap1), ("chord_last", chord_last),
                                      ("se_inside_group", inside)) if f],
              sample={"lines": rc["lines"][:24], "expected": [[x["tick"], list(x["value"])] for x in exp[:8]]})
@@ -98,7 +99,9 @@ def table_cases(ctx: Ctx):
                         else:
                             groups += _group(ticks[p], neigh[k], 0, 0)
                             k += 1
-                    yield {"items": groups}
+                    # a third of the table is written with blank/tab padding around the lines
+                    k = mask * 97 + pos * 13 + gap + tap * 2 + forced
+                    yield {"items": groups, "fmt": k + 1 if k % 3 == 0 else 0}
 
 
 # ------------------------------------------------------------------------------------------------
@@ -154,7 +157,7 @@ def _sections(draw, max_ticks):
     lead = [it for it in items[:items.index(nlines[0])]]
     lead_sorted = sorted(lead, key=lambda it: it[0])
     items[:len(lead)] = lead_sorted
-    return {"res": res, "items": items}
+    return {"res": res, "items": items, "fmt": draw(st.one_of(st.just(0), st.just(0), st.integers(1, 10 ** 6)))}
 
 
 def strat_sections(ctx: Ctx):
